@@ -11,6 +11,7 @@ def plan(tier):
             "index_exhaustive_small", "nonpow2_alphabet", "nonpow2_top_rank_qgram",
             "pattern_offset_exceeds_text_position", "max_count_small", "text_shorter_than_q",
             "pattern_shorter_than_q", "codes_full_word", "codes_sigma1", "codes_beyond_2p30", "unary_alphabet", "unary_alphabet_q_above_64",
+            "alphabet_of_all_256_bytes", "alphabet_of_255_bytes", "index_over_all_256_bytes",
             "exact_k_jump_chains_in_long_list", "k_equals_1_chain", "matches_sharing_x_and_sharing_y",
             "unsorted_match_list_offered",
             "ranktransform_clone", "ranktransform_serde_roundtrip", "ranktransform_clone_from_into_used_object",
